@@ -316,6 +316,12 @@ fn attrs(s: &Sexp) -> Vec<AnyAttribute> {
                 match a.at(3).num() {
                     1 => class((name, move || on)).into_any_attr(),
                     2 => class((name, ArcRwSignal::new(on))).into_any_attr(),
+                    // tuple_class_reactive!
+                    3 => class((name, RwSignal::new(on))).into_any_attr(),
+                    4 => class((name, Memo::new(move |_| on))).into_any_attr(),
+                    5 => class((name, Signal::derive(move || on))).into_any_attr(),
+                    6 => class((name, ArcMemo::new(move |_| on))).into_any_attr(),
+                    7 => class((name, RwSignal::new(on).read_only())).into_any_attr(),
                     _ => class((name, on)).into_any_attr(),
                 }
             }
